@@ -320,7 +320,9 @@ ElemNumber::findPrecedingOrAncestorOrSelf(
 
     while (thePos != 0)
     {
-        if (0 != fromMatchPattern)
+        // The from pattern selects a node before the current node, so
+        // the current node itself is not tested.
+        if (0 != fromMatchPattern && thePos != context)
         {
             if (fromMatchPattern->getMatchScore(
                     thePos,
@@ -815,24 +817,22 @@ ElemNumber::getMatchingAncestors(
         countMatchPattern = xpathGuard.get();
     }
 
+    XalanNode* const    contextNode = node;
+
     while (0 != node)
     {
+        // The only ancestors that are searched are those that are
+        // descendants of the nearest ancestor that matches the from
+        // pattern, for level="single" and level="multiple" alike.  The
+        // current node is not an ancestor of itself.
         if (0 != m_fromMatchPattern &&
+            node != contextNode &&
             m_fromMatchPattern->getMatchScore(
                 node,
                 *this,
                 executionContext) != XPath::eMatchScoreNone)
         {
-            // The following if statement gives level="single" different 
-            // behavior from level="multiple", which seems incorrect according 
-            // to the XSLT spec.  For now we are leaving this in to replicate 
-            // the same behavior in XT, but, for all intents and purposes we 
-            // think this is a bug, or there is something about level="single" 
-            // that we still don't understand.
-            if(!stopAtFirstFound)
-            {
-                break;
-            }
+            break;
         }
 
         assert(0 != countMatchPattern);
